@@ -69,6 +69,13 @@ def toml_basic(s):
     return '"' + "".join(out) + '"'
 
 
+def toml_key(s):
+    # literal (single-quoted) keys carry backslashes verbatim; the `toml` package mis-reads escaped backslashes in keys
+    if "'" not in s and "\n" not in s:
+        return "'" + s + "'"
+    return toml_basic(s)
+
+
 def build(slot, value, kind):
     commit_msg = "bump {old_version} -> {new_version}"
     tag_msg = "release {new_version}"
@@ -92,7 +99,7 @@ def build(slot, value, kind):
     cfg = "\n".join([
         "[bumpver]", f"current_version = {toml_basic(old)}", f"version_pattern = {toml_basic(pattern)}",
         f"commit_message = {toml_basic(commit_msg)}", f"tag_message = {toml_basic(tag_msg)}", "commit = true", "tag = true", "push = true",
-        "", "[bumpver.file_patterns]", '"bumpver.toml" = [\'current_version = "{version}"\']', f"{toml_basic(path)} = [\"ver={{version}};\"]", "",
+        "", "[bumpver.file_patterns]", '"bumpver.toml" = [\'current_version = "{version}"\']', f"{toml_key(path)} = [\"ver={{version}};\"]", "",
     ])
     files = {"bumpver.toml": cfg.encode("utf-8"), path: ("ver=" + old + ";\n").encode("utf-8")}
     import toml as _toml
